@@ -288,7 +288,7 @@ pub fn run(args: &Args, sink: &mut Sink, rng: &mut Rng) {
     let mut s_struct = Stream::new("struct", REQ, "chk_struct", "list (list N)", "outcome (list (N * N))");
     let mut s_footer = Stream::new("footer", REQ, "chk_footer", "N * bytes", "outcome ((N * N * N) * list (N * N) * (N * N * N * N))");
     let mut s_tail = Stream::new("tail", REQ, "chk_tail", "N * list N * list (N * N) * N", "bytes");
-    s_footer.shard = 40;
+    s_footer.shard = 12;
     s_tail.shard = 100;
     s_read.shard = 250;
 
@@ -298,7 +298,8 @@ pub fn run(args: &Args, sink: &mut Sink, rng: &mut Rng) {
         let v21 = version != LanceFileVersion::V2_0;
         let lens = gen_lens(rng);
         let multi = fi % 4 == 3;
-        let widths: Vec<u8> = if multi { (0..rng.range(2, 4)).map(|_| *rng.pick(&[1u8, 2, 4, 8])).collect() } else { vec![8] };
+        // column 0 is wide enough to hold every row number (it identifies the rows read)
+        let widths: Vec<u8> = if multi { std::iter::once(8u8).chain((0..rng.range(1, 3)).map(|_| *rng.pick(&[1u8, 2, 4, 8]))).collect() } else { vec![8] };
         let cache = *rng.pick(&[0u64, 1, 700, 2000, 5000, 20000, 1 << 23]);
         let maxp = *rng.pick(&[1u64, 64, 500, 1000, 4096, 1 << 25]);
         let f = match write_seq_file(&rt, version, &widths, &lens, Some(cache * widths.len() as u64), Some(maxp)) {
@@ -360,8 +361,12 @@ pub fn run(args: &Args, sink: &mut Sink, rng: &mut Rng) {
                 meta.num_global_buffer_bytes,
                 meta.num_footer_bytes
             );
-            s_footer.push(format!("({}, {})", file_len, coq::bytes(&tail)), out, json!({"file": human_file, "footer": "real"}));
-            sink.count("unit:footer:real");
+            // (the literal is the cost of a shard: keep tails of files with few pages)
+            let small_tail = tail.len() <= 6000;
+            if small_tail {
+                s_footer.push(format!("({}, {})", file_len, coq::bytes(&tail)), out, json!({"file": human_file, "footer": "real"}));
+                sink.count("unit:footer:real");
+            }
             // direct oracle: version numbers written are the ones documented for the version
             let want = match version {
                 LanceFileVersion::V2_0 => (0u16, 3u16),
@@ -382,7 +387,7 @@ pub fn run(args: &Args, sink: &mut Sink, rng: &mut Rng) {
                 s_tail.push(format!("({}, {}, {}, {})", col_meta_start, coq::nlist(lens_meta.iter()), cpairs(&gbo), vnum(version)), coq::bytes(&tailb), json!({"file": human_file}));
             }
             // corrupted tails: the reader must refuse them (and the model agrees on the outcome)
-            if fi % 3 == 0 {
+            if fi % 3 == 0 && small_tail {
                 let mut variants: Vec<(&str, Vec<u8>)> = vec![];
                 let t = tail.to_vec();
                 let n = t.len();
